@@ -27,7 +27,7 @@ import (
 var errtableJSON []byte
 
 // ErrTablePackages lists the packages whose functions are recorded.
-var ErrTablePackages = []string{"main", "raftstore", "raftlog", "outputstream", "robust", "config", "timesafeguard", "ircserver"}
+var ErrTablePackages = []string{"main", "raftstore", "raftlog", "outputstream", "robust", "config", "timesafeguard", "ircserver", "api"}
 
 type errSite struct {
 	fn      string // attributed function
